@@ -185,7 +185,7 @@ def _run(prop, tier, replay, seed, work, t0):
             cfg = sc.get("cfg", {})
             if any(k in cfg for k in ("max_read", "max_write", "pic", "password", "greeting")):
                 return False
-            return not any(st.get("kind") in ("art", "tlist", "tvec") or st.get("op") == "wstall" for b in sc.get("batches", []) for st in b)
+            return not any(st.get("kind") in ("art", "tlist", "tvec") or st.get("op") in ("wstall", "drop_events") for b in sc.get("batches", []) for st in b)
         keep = {sc["run"] for sc in scheds if plain(sc)}
         ltp = work.path("looptrace.ndjson")
         nruns = 0
